@@ -48,6 +48,10 @@ def scipy_G():
 EXPLANATION += ' R17.10 no integer-literal power (negative, or >= 3) is taken of a quantity that stays an integer when the arguments are integers (numba types arithmetic by its arguments: 0 for a negative power, silent int64 wrap-around for a large one).'
 TECHNIQUE += '; syntactic type flow in numba-compiled kernels (integer-literal powers of integer-typed arguments)'
 
+EXPLANATION += " R17.11 an array shared between two worlds' slots (handed to both, or read back from the orbit and handed on): after one world is updated through another quantity both triples are Kepler-consistent, the other world keeps what it was given and the caller's array is intact."
+
+TECHNIQUE += '; orbit mutators interpreted with array-valued quantities as mutable cells shared between slots'
+
 def run(chk):
     repo = Repo(chk.repo)
     # R17.10: integer arguments are values like any other; numba keeps them integers until they meet a float (an integer-literal power is taken first)
